@@ -258,7 +258,7 @@ _CMP = {ast.Is: "is", ast.IsNot: "isnot", ast.Eq: "eq", ast.NotEq: "ne", ast.Lt:
 class Evaluator:
     """term propagation along CFG paths of one (flattened) function"""
 
-    def __init__(self, repo: Repo, fi: FuncInfo, cfg: CFG, pure: Callable[[str | None, str | None], bool | None] | None = None,
+    def __init__(self, repo: Repo, fi: FuncInfo, cfg: CFG | None, pure: Callable[[str | None, str | None], bool | None] | None = None,
                  havoc: bool = True, rewrite: Callable[[Term], Term] | None = None, fold_consts: bool = True) -> None:
         self.repo = repo
         self.fi = fi
@@ -312,9 +312,35 @@ class Evaluator:
     def t_Constant(self, e, st, log, nid):
         return const(e.value)
 
+    def closure_term(self, name: str, st: State) -> Term | None:
+        """value of a free variable of a nested function: a nested def or a single-assignment display/constant of an
+        enclosing function (dispatch tables, constants); anything computed stays a symbol"""
+        p = self.fi.parent
+        while p is not None:
+            q = f"{p.qualname}.{name}"
+            if self.repo.has_func(q):
+                st.defs.setdefault(name, self.repo._func(q).node)
+                return ("func", name)
+            if name in p.params():
+                return None
+            al = self.repo.local_alias(name, p)
+            if al is not None:
+                if isinstance(al, (ast.Dict, ast.Tuple, ast.List, ast.Constant, ast.Set)):
+                    return Evaluator(self.repo, p, None).term(al, st, False)
+                return None
+            p = p.parent
+        return None
+
     def t_Name(self, e, st, log, nid):
         if e.id in st.env:
             return st.env[e.id]
+        if e.id not in self.fi.params() and self.repo.has_func(f"{self.fi.qualname}.{e.id}"):
+            st.defs.setdefault(e.id, self.repo._func(f"{self.fi.qualname}.{e.id}").node)
+            return ("func", e.id)
+        if self.fi.parent is not None and e.id not in self.fi.params():
+            ct = self.closure_term(e.id, st)
+            if ct is not None:
+                return ct
         if self.fold_consts and e.id not in self.fi.params():
             v = self.repo.fold_in(e, self.fi)
             if v is not UNKNOWN and isinstance(v, (int, str, bytes, bool, float, type(None))):
@@ -476,6 +502,8 @@ class Evaluator:
         kwargs = {k.arg if k.arg is not None else "**": self.term(k.value, st, log, nid) for k in e.keywords}
         if callee == "cast" and len(args) == 2:
             return args[1]
+        if attr == "get" and recv is not None and recv[0] == "dict" and 1 <= len(args) <= 2 and not kwargs:
+            return ("dictget", recv, args[0], args[1] if len(args) == 2 else NONE)
         if callee in ("set", "list", "dict") and not args and not kwargs and log:
             st.nfresh += 1
             return ("new", st.nfresh, callee)
